@@ -395,7 +395,30 @@ pub fn binder_zoo(rng: &mut Rng) -> String {
   let mut n = 0usize;
   for f in 0..nf {
     let mut names: Vec<String> = Vec::new();
-    let body = match rng.below(7) {
+    let body = match rng.below(9) {
+      7 => {
+        // the same binder names again in the else side of an if-let (disjoint scopes)
+        let n0 = n;
+        let mut n1: Vec<String> = Vec::new();
+        let p1 = sh_pat(rng, &mut n1, &mut n);
+        let u1 = use_of(rng, &n1);
+        n = n0;
+        let mut n2: Vec<String> = Vec::new();
+        let p2 = sh_pat(rng, &mut n2, &mut n);
+        let u2 = use_of(rng, &n2);
+        format!("if let {p1} = s {{ {u1} }} else if let {p2} = s {{ {u2} }} else {{ c }}")
+      }
+      8 => {
+        let n0 = n;
+        let mut n1: Vec<String> = Vec::new();
+        let p1 = sh_pat(rng, &mut n1, &mut n);
+        let u1 = use_of(rng, &n1);
+        n = n0;
+        let mut n2: Vec<String> = Vec::new();
+        let p2 = rec_pat(rng, &mut n2, &mut n);
+        let u2 = use_of(rng, &n2);
+        format!("if let {p1} = s {{ {u1} }} else {{ let {p2} = r; {u2} }}")
+      }
       0 => {
         let p = sh_pat(rng, &mut names, &mut n);
         format!("match s {{ {p} -> {}, _ -> 0 }}", use_of(rng, &names))
@@ -487,4 +510,32 @@ pub fn string_literal(i: usize, exec_safe: bool) -> String {
   }
   s.push('"');
   s
+}
+
+/// single ill-formed edits of patterns in a binder zoo module: (operator, edited text). Every
+/// result contains exactly one static error.
+pub fn pattern_faults(text: &str, rng: &mut Rng) -> Vec<(&'static str, String)> {
+  let edits: &[(&'static str, &str, &str)] = &[
+    ("variant-pattern-extra-subpattern", "Dot(", "Dot(zzExtra, "),
+    ("variant-pattern-extra-subpattern", "Mark(", "Mark(zzExtra, "),
+    ("variant-pattern-extra-subpattern", ", _) ->", ", _, zzExtra) ->"),
+    ("variant-pattern-missing-subpattern", ", _)", ")"),
+    ("struct-pattern-duplicate-field", "{ x as", "{ x as zzFirst, x as"),
+    ("struct-pattern-duplicate-field", "{ x, y", "{ x, y, y as zzAgain"),
+    ("struct-pattern-duplicate-field", ", y as _ }", ", y as _, y as zzAgain }"),
+    ("struct-pattern-unknown-field", "y }", "y, zzUnknown }"),
+    ("struct-pattern-unknown-field", "y as _ }", "y as _, zzUnknown as _ }"),
+    ("tuple-pattern-arity", ") = (c, 2);", ", zzThird) = (c, 2);"),
+    ("nullary-variant-with-subpattern", "_ -> 0", "Nil(zzNothing) -> 0, _ -> 0"),
+  ];
+  let mut out = Vec::new();
+  for (op, from, to) in edits {
+    let places: Vec<usize> = text.match_indices(from).map(|(i, _)| i).collect();
+    if places.is_empty() {
+      continue;
+    }
+    let at = places[rng.below(places.len())];
+    out.push((*op, format!("{}{}{}", &text[..at], to, &text[at + from.len()..])));
+  }
+  out
 }
